@@ -258,31 +258,34 @@ def _cnot_on_two_bosonic_qubits(modes):
     return instructions
 
 
-def _get_condition_function(qubit_index, measurement_value):
+def _get_condition_function(outcome_position, measurement_value, negate=False):
     """Returns a condition for conditional operations based on measurement outcomes.
 
-    This function converts the qubit index to the corresponding dual-rail mode
-    indices and checks the measurement outcomes of those modes to determine the
-    qubit measurement outcome.
+    `outcome_position` is the position of the measurement that wrote the classical
+    bit among the measurements of the program (the outcomes of the k-th measured
+    bosonic qubit are `outcomes[2 * k]` and `outcomes[2 * k + 1]`).  An outcome
+    outside the dual-rail code space satisfies neither the condition nor its negation.
     """
 
     def condition(outcomes):
-        two_mode_outcome = [outcomes[qubit_index * 2], outcomes[qubit_index * 2 + 1]]
-        # NOTE: An outcome outside the dual-rail code space (possible with a tiny
-        # probability, since the KLM angles are only approximate) does not satisfy any
-        # condition.
+        two_mode_outcome = [
+            outcomes[outcome_position * 2],
+            outcomes[outcome_position * 2 + 1],
+        ]
         if two_mode_outcome == _zero_bosonic_qubit_state:
             qubit_outcome = 0
         elif two_mode_outcome == _one_bosonic_qubit_state:
             qubit_outcome = 1
         else:
             return False
-        return qubit_outcome == measurement_value
+        return (qubit_outcome == measurement_value) != negate
 
     return condition
 
 
-def _map_qiskit_instr_to_pq(qiskit_instruction, modes, aux_modes):
+def _map_qiskit_instr_to_pq(
+    qiskit_instruction, modes, aux_modes, qubit_indices=(), clbit_positions=None
+):
     instruction_name = qiskit_instruction.name
     instructions = []
     if instruction_name == "h":
@@ -323,15 +326,33 @@ def _map_qiskit_instr_to_pq(qiskit_instruction, modes, aux_modes):
         pq_instruction = pq.ParticleNumberMeasurement().on_modes(modes[0], modes[1])
         instructions.append(pq_instruction)
     elif instruction_name == "if_else":
-        true_branch_instructions = qiskit_instruction.operation.params[0]
-
         cond = qiskit_instruction.operation.condition
+        if clbit_positions is None or cond[0] not in clbit_positions:
+            raise ValueError(
+                f"The condition {cond} does not refer to a previously measured "
+                "classical bit."
+            )
+        position = clbit_positions[cond[0]]
 
-        condition = _get_condition_function(cond[0]._index, cond[1])
-        for inner_instr_qiskit in true_branch_instructions:
-            instr_list = _map_qiskit_instr_to_pq(inner_instr_qiskit, modes, aux_modes)
-            for instr in instr_list:
-                instructions.append(instr.when(condition))
+        true_body, false_body = qiskit_instruction.operation.params[:2]
+        for body, negate in ((true_body, False), (false_body, True)):
+            if body is None:
+                continue
+            condition = _get_condition_function(position, cond[1], negate)
+            for inner_instr_qiskit in body.data:
+                if inner_instr_qiskit.name in ("cz", "cx", "measure", "if_else"):
+                    raise ValueError(
+                        f"Unsupported instruction '{inner_instr_qiskit.name}' in a "
+                        "conditional block of the quantum circuit."
+                    )
+                # the qubits of the block correspond positionally to the qubits of
+                # the if_else instruction in the enclosing circuit
+                qubit = qubit_indices[body.find_bit(inner_instr_qiskit.qubits[0]).index]
+                instr_list = _map_qiskit_instr_to_pq(
+                    inner_instr_qiskit, [2 * qubit, 2 * qubit + 1], []
+                )
+                for instr in instr_list:
+                    instructions.append(instr.when(condition))
     else:
         raise ValueError(
             f"Unsupported instruction '{instruction_name}' in the quantum circuit."
@@ -362,8 +383,15 @@ def _encode_dual_rail_from_qiskit(qc):
     instructions.extend(preparations)
 
     cz_idx = 0
+    clbit_positions = {}
+    num_measurements = 0
     for instr_qiskit in qc.data:
         qubit_indices = [qc.find_bit(q).index for q in instr_qiskit.qubits]
+
+        if instr_qiskit.name == "measure":
+            # the outcomes are collected in the order of the measurements
+            clbit_positions[instr_qiskit.clbits[0]] = num_measurements
+            num_measurements += 1
 
         if instr_qiskit.name in ("cz", "cx"):
             if instr_qiskit.name == "cz":
@@ -381,7 +409,9 @@ def _encode_dual_rail_from_qiskit(qc):
             qubit = qubit_indices[0]
             modes = [2 * qubit, 2 * qubit + 1]
             aux_modes = []
-        mapped_instructions = _map_qiskit_instr_to_pq(instr_qiskit, modes, aux_modes)
+        mapped_instructions = _map_qiskit_instr_to_pq(
+            instr_qiskit, modes, aux_modes, qubit_indices, clbit_positions
+        )
         instructions.extend(mapped_instructions)
 
     return instructions
